@@ -48,6 +48,7 @@ type Contract struct {
 	Ensures     []*Clause
 	Modifies    []*Clause
 	Slots       []*Clause // JSON slot specifications: Tag is the key, Expr the value written under it
+	CallAsserts []*Clause // Tag is the callee name; checked at every call of it, with arg0.. bound to the arguments
 	ExitAsserts []*Clause // checked at every return with the function's locals in scope; not visible to callers
 	Loops       map[int]*LoopContract
 	Ghost       []ParamDecl // ghost result variables
@@ -90,9 +91,10 @@ type GlobalInv struct {
 }
 
 type ObjInv struct {
-	Elem   string
-	Clause *Clause
-	Pkg    *packages.Package
+	Elem     string
+	Clause   *Clause
+	Pkg      *packages.Package
+	ElemType types.Type
 }
 
 type Axiom struct {
@@ -125,6 +127,7 @@ type World struct {
 	ReflectReads map[string]bool    // functions that read everything reachable from their arguments
 	ChanInvs     map[string]*ObjInv // by global variable full name (pkgpath.name)
 	PoolInvs     map[string]*ObjInv
+	ChanPreds    map[string]*ObjInv // ghost predicates on channel values
 	Intrinsics   map[string][]string
 }
 
@@ -138,6 +141,7 @@ func loadWorld(repo string, verifDir string) (*World, error) {
 	w.ReflectReads = map[string]bool{}
 	w.ChanInvs = map[string]*ObjInv{}
 	w.PoolInvs = map[string]*ObjInv{}
+	w.ChanPreds = map[string]*ObjInv{}
 	// ghost package: types that exist only in specifications
 	gp := types.NewPackage("ghost", "ghost")
 	strm := types.NewStruct([]*types.Var{
@@ -286,8 +290,8 @@ type rawDirective struct {
 	sub  []rawDirective
 }
 
-var topKeywords = map[string]bool{"ghost": true, "pred": true, "spec": true, "uninterp": true, "axiom": true, "lemma": true, "func": true, "noop": true, "ifaceas": true, "extern": true, "globalinv": true, "intrinsic": true, "typeas": true, "chaninv": true, "poolinv": true, "noreturn": true, "guarded": true, "reflectreads": true}
-var subKeywords = map[string]bool{"requires": true, "ensures": true, "modifies": true, "loop": true, "invariant": true, "decreases": true, "trusted": true, "pure": true, "ghostout": true, "opt": true, "params": true, "results": true, "havoc": true, "step": true, "exitassert": true, "slot": true, "acquires": true, "releases": true}
+var topKeywords = map[string]bool{"ghost": true, "pred": true, "spec": true, "uninterp": true, "axiom": true, "lemma": true, "func": true, "noop": true, "ifaceas": true, "extern": true, "globalinv": true, "intrinsic": true, "typeas": true, "chaninv": true, "poolinv": true, "noreturn": true, "guarded": true, "reflectreads": true, "chanpred": true}
+var subKeywords = map[string]bool{"requires": true, "ensures": true, "modifies": true, "loop": true, "invariant": true, "decreases": true, "trusted": true, "pure": true, "ghostout": true, "opt": true, "params": true, "results": true, "havoc": true, "step": true, "exitassert": true, "slot": true, "acquires": true, "releases": true, "callassert": true}
 
 func readDirectives(path string) ([]rawDirective, error) {
 	f, err := os.Open(path)
@@ -602,6 +606,29 @@ func (w *World) addDirectives(ds []rawDirective, pkg *packages.Package) error {
 		var err error
 		switch d.kw {
 		case "ghost", "ifaceas", "typeas":
+		case "chanpred":
+			// chanpred name(elemType) m: expr
+			i := strings.Index(d.text, ":")
+			hd := strings.TrimSpace(d.text[:i])
+			j := strings.Index(hd, "(")
+			k := strings.Index(hd, ")")
+			if i < 0 || j < 0 || k < j {
+				err = fmt.Errorf("expected: chanpred name(ElemType) m: expr")
+				break
+			}
+			et, e := w.resolveType(hd[j+1:k], pkg)
+			if e != nil {
+				err = e
+				break
+			}
+			body, e := parseCExpr(d.text[i+1:])
+			if e != nil {
+				err = e
+				break
+			}
+			name := strings.TrimSpace(hd[:j])
+			w.ChanPreds[name] = &ObjInv{Elem: strings.TrimSpace(hd[k+1:]), Clause: &Clause{Kind: "chanpred", Text: strings.TrimSpace(d.text[i+1:]), Expr: body, Src: d.src}, Pkg: pkg, ElemType: et}
+			w.Uninterps[name] = &Uninterp{Name: name, Params: []ParamDecl{{"c", types.NewChan(types.SendRecv, et)}}, Result: tBool}
 		case "chaninv", "poolinv":
 			i := strings.Index(d.text, ":")
 			hd := strings.Fields(d.text[:i])
@@ -813,6 +840,16 @@ func (w *World) addDirectives(ds []rawDirective, pkg *packages.Package) error {
 						return e
 					}
 					curLoop.Steps = append(curLoop.Steps, cl)
+				case "callassert":
+					i := strings.Index(s.text, ":")
+					if i < 0 {
+						return fmt.Errorf("%s: expected: callassert <callee>: expr", s.src)
+					}
+					e, er := parseCExpr(s.text[i+1:])
+					if er != nil {
+						return fmt.Errorf("%s: %v", s.src, er)
+					}
+					c.CallAsserts = append(c.CallAsserts, &Clause{Kind: "callassert", Text: strings.TrimSpace(s.text[i+1:]), Expr: e, Src: s.src, Tag: strings.TrimSpace(s.text[:i])})
 				case "slot":
 					fs := strings.SplitN(strings.TrimSpace(s.text), " ", 2)
 					if len(fs) != 2 {
